@@ -365,7 +365,7 @@ func (g *Gen) scalar(v reflect.Value) {
 			if g.R.Chance(1, 3) {
 				// a larger float32: 24 significant bits shifted up, so that neighbours one fixed-point unit
 				// away are NOT representable in binary32 (operands there exercise the float32 rounding)
-				fx = (fx | 1<<21) << uint(4+g.R.Intn(5))
+				fx = (fx | 1<<21) << uint(4+g.R.Intn(14))
 			}
 		} else {
 			fx %= 1 << 30
